@@ -621,6 +621,7 @@ func zvServerTier(t *testing.T, run *core.Run, rng *core.Rand, between func()) {
 		ranBetween = true
 		between()
 		z.phase2(run)
+		z.phaseBlocking(run)
 		done = true
 	})
 	if !ranBetween {
